@@ -345,6 +345,11 @@ CLAIMED["C12"]["text"] = CLAIMED["C12"]["text"] + (" METATHESIS (Props/C12Meta, 
 _amend("C02", "text", "`$ > $` D3, numbers above usize::MAX D2, insertion exception past the end of the word D22, empty optional D25, ...; D6, D20, D23 were repaired)",
        "`$ > $` D3, insertion exception past the end of the word D22, empty optional D25, ...; D2, D6, D20, D21, D23, D30, D31 were repaired)")
 
+# ---- session 4, part 3: D8d and D24 repaired
+_amend("C08", "text", "they are false on the pinned tree for boundaries inserted/moved at a word edge, empty structures and whole-word deletion (known findings D8a-D8d).",
+       "they are false on the pinned tree for boundaries inserted/moved at a word edge and empty structures (known findings D8a-D8c); whole-word deletion (D8d: the only-segment "
+       "guard read the ORIGINAL word) was repaired (fix: b5ca3af).")
+
 
 def main():
     checks = []
